@@ -926,6 +926,146 @@ def shapeSweep (thorough : Bool) (doc : Bytes → IO Unit) : IO Unit := do
         doc (shapeDoc k (k / 4 % 2 == 1) f p)
         k := k + 1
 
+/-! ### work-amplifying shapes in well-formed files
+
+  Every traversal of the pipeline (dump_root, the type checker, the page-DOM builder's work queue, per-page
+  decoding) visits a DISTINCT object once - that is what makes the termination budgets of C01 polynomial in the
+  file (|objU|+1 dequeues, workBound, |defs|+1).  The documents here are well-formed and small (a few KB), but the
+  number of PATHS / MENTIONS in them is exponential or quadratic in their size: layered DAGs in which every node of
+  a layer names every node of the next layer, each `m` times (`w = 1, m >= 2`: a ladder whose nodes list the same
+  kid twice or three times; `w = 2`: diamonds; `w >= 3`: kids shared between all siblings; two or three layers with
+  `m` in the hundreds: the quadratic version).  A traversal that works per mention instead of per object needs
+  (w*m)^levels steps and does not come back within the runner's time limit, while the code as it is answers in
+  milliseconds.  The same lattice is built (a) as the page tree itself (/Pages nodes, leaf pages below the last layer
+  sharing one content stream and one font), and (b) from dictionaries / arrays / directly nested containers hung
+  below the page, the catalog or a stream dictionary (dump_root and the type checker's reference handling).
+  `repDoc`: the linear members of the class - /Contents arrays that repeat one stream, font dictionaries that
+  name one font under many keys, resources reached through a chain of references, shared by many pages. -/
+
+def refsTxt (rs : List Nat) : Bytes := (rs.map fun r => natStr r ++ bs " 0 R ").flatten
+
+/-- the mentions a node of a layer makes of the next layer's nodes `next`: each `m` times, grouped (a a b b) or
+    interleaved (a b a b) -/
+def ampRefs (m : Nat) (inter : Bool) (next : List Nat) : List Nat :=
+  if inter then (List.replicate m next).flatten else next.flatMap fun x => List.replicate m x
+
+/-- `levels` layers of `w` objects numbered from `first`; `node k l above refs` = body of object `k` in layer `l`
+    (`above` = first object of the layer above, `top` for layer 0); the layer below the last one is `tails` -/
+def ampLayers (first levels w m : Nat) (inter : Bool) (top : Nat) (tails : List Nat)
+    (node : Nat → Nat → Nat → List Nat → Bytes) : List Bytes :=
+  (List.range levels).flatMap fun l =>
+    let next : List Nat := if l + 1 == levels then tails else (List.range w).map fun j => first + (l + 1) * w + j
+    let above := if l == 0 then top else first + (l - 1) * w
+    (List.range w).map fun i => obj (first + l * w + i) (node (first + l * w + i) l above (ampRefs m inter next))
+
+/-- (a) the lattice as the page tree: 1 catalog, 2 root /Pages, 3.. the layers, then `leaves` leaf pages (all below
+    every node of the last layer), one content stream, one font.  `parents`: write /Parent entries -/
+def kidsLattice (levels w m leaves : Nat) (inter parents : Bool) : Bytes :=
+  let first := 3
+  let leaf0 := first + levels * w
+  let cont := leaf0 + leaves
+  let font := cont + 1
+  let l0 : List Nat := if levels == 0 then (List.range leaves).map (leaf0 + ·) else (List.range w).map (first + ·)
+  let par (p : Nat) : Bytes := if parents then bs "/Parent " ++ natStr p ++ bs " 0 R " else []
+  let content := bs "BT /F1 12 Tf 72 720 Td (shared) Tj ET"
+  assemble hdr
+    ([obj 1 (bs "<< /Type /Catalog /Pages 2 0 R >>"),
+      obj 2 (bs "<< /Type /Pages /Count " ++ natStr leaves ++ bs " /Kids [" ++ refsTxt (ampRefs m inter l0) ++ bs "] >>")] ++
+     ampLayers first levels w m inter 2 ((List.range leaves).map (leaf0 + ·)) (fun _ _ above refs =>
+       bs "<< /Type /Pages " ++ par above ++ bs "/Count " ++ natStr leaves ++ bs " /Kids [" ++ refsTxt refs ++ bs "] >>") ++
+     ((List.range leaves).map fun i => obj (leaf0 + i)
+       (bs "<< /Type /Page " ++ par (if levels == 0 then 2 else first + (levels - 1) * w) ++ bs "/MediaBox [0 0 612 792] /Contents " ++
+        natStr cont ++ bs " 0 R /Resources << /Font << /F1 " ++ natStr font ++ bs " 0 R >> >> >>")) ++
+     [streamObj cont [] (natStr content.length) content,
+      obj font (bs "<< /Type /Font /Subtype /Type1 /BaseFont /Helvetica >>")])
+    [] (bs "1 0 R")
+
+/-- (b) the lattice built from containers, hung below `pos` (0 the page, 1 the catalog, 2 the content stream's
+    dictionary, 3 the root of the page tree); flavour 0 dictionaries (one key per mention), 1 arrays, 2 directly
+    nested containers around the mentions; the last layer mentions stream 7 (decoded by dump_root) -/
+def dagDoc (pos flavour levels w m : Nat) (inter : Bool) : Bytes :=
+  let first := 8
+  let l0 := refsTxt (ampRefs m inter ((List.range w).map (first + ·)))
+  let x : Bytes := bs "/X [" ++ l0 ++ bs "]"
+  let node (_k _l _above : Nat) (refs : List Nat) : Bytes :=
+    match flavour % 3 with
+    | 0 => bs "<< " ++ ((List.range refs.length).zip refs).flatMap (fun (i, r) => bs "/K" ++ natStr i ++ bs " " ++ natStr r ++ bs " 0 R ") ++ bs ">>"
+    | 1 => bs "[" ++ refsTxt refs ++ bs "]"
+    | _ => bs "<< /A [" ++ refsTxt refs ++ bs "] /B << /C [[" ++ refsTxt refs ++ bs "]] /D " ++ natStr (refs.headD 7) ++ bs " 0 R >> >>"
+  let more := ampLayers first levels w m inter 3 [7] node
+  match pos % 4 with
+  | 0 => baseDoc textContent [] none (bs "[3 0 R]") x [] [] more
+  | 1 => baseDoc textContent [] none (bs "[3 0 R]") [] [] x more
+  | 2 => baseDoc textContent x none (bs "[3 0 R]") [] [] [] more
+  | _ => baseDoc textContent [] none (bs "[3 0 R]") [] x [] more
+
+/-- the linear members: `pages` pages sharing /Contents (one stream repeated `r` times, inline or through an array
+    object) and /Resources (one font under `f` keys, reached through `c` references when `shared`) -/
+def repDoc (pages r f c : Nat) (shared : Bool) : Bytes :=
+  let content := bs "BT /F1 9 Tf (a) Tj ET "
+  let contArr := bs "[" ++ refsTxt (List.replicate r 3) ++ bs "]"
+  let res := bs "<< /Font << " ++ ((List.range f).flatMap fun i => bs "/F" ++ natStr (i + 1) ++ bs " 4 0 R ") ++ bs ">> >>"
+  let chain := (List.range c).map fun i => obj (8 + i) (if i + 1 == c then res else natStr (9 + i) ++ bs " 0 R")
+  let p0 := 8 + c
+  assemble hdr
+    ([obj 1 (bs "<< /Type /Catalog /Pages 2 0 R >>"),
+      obj 2 (bs "<< /Type /Pages /Count " ++ natStr pages ++ bs " /Kids [" ++ refsTxt ((List.range pages).map (p0 + ·)) ++ bs "] >>"),
+      streamObj 3 [] (natStr content.length) content,
+      obj 4 (bs "<< /Type /Font /Subtype /Type1 /BaseFont /Helvetica /FontDescriptor 5 0 R >>"),
+      obj 5 (bs "<< /Type /FontDescriptor /FontName /Helvetica /Flags 32 /FontFile 6 0 R >>"),
+      streamObj 6 [] (bs "3") (bs "abc"),
+      obj 7 contArr] ++ chain ++
+     ((List.range pages).map fun i => obj (p0 + i)
+       (bs "<< /Type /Page /Parent 2 0 R /MediaBox [0 0 612 792] /Contents " ++ (if shared then bs "7 0 R" else contArr) ++
+        bs " /Resources " ++ (if shared then bs "8 0 R" else res) ++ bs " >>")))
+    [] (bs "1 0 R")
+
+/-- lattice sizes (levels, w, m): controls that any traversal finishes, then sizes where (w*m)^levels (or, for the
+    two- and three-layer ones, m^levels) steps cannot be done within the time limit -/
+def ampSizes (thorough : Bool) : List (Nat × Nat × Nat) :=
+  [(0, 1, 2), (1, 1, 2), (3, 1, 2), (3, 2, 2), (30, 1, 2), (60, 1, 2), (40, 1, 3), (3, 2, 1), (30, 2, 1),
+   (30, 2, 2), (20, 3, 1), (8, 8, 1), (2, 1, 200), (3, 1, 100), (2, 3, 50)] ++
+  (if thorough then
+    ((List.range 9).flatMap fun l => [(l, 1, 2), (l, 1, 3), (l, 2, 1), (l, 2, 2), (l, 3, 1)]) ++
+    [(20, 1, 2), (25, 1, 2), (40, 1, 2), (50, 1, 2), (100, 1, 2), (24, 1, 3), (30, 1, 3), (60, 1, 3), (30, 1, 4), (20, 1, 10),
+     (20, 2, 1), (40, 2, 1), (60, 2, 1), (80, 2, 1), (40, 2, 2), (60, 2, 2), (30, 2, 3), (30, 3, 1), (40, 3, 1), (60, 3, 1), (30, 3, 2),
+     (20, 5, 1), (24, 5, 1), (12, 8, 1), (14, 8, 1), (6, 16, 1), (3, 30, 1), (4, 1, 100), (3, 1, 300), (3, 1, 500), (2, 1, 1000),
+     (3, 2, 120), (2, 5, 40)]
+   else [])
+
+def ampSweep (thorough : Bool) (doc : Bytes → IO Unit) : IO Unit := do
+  let mut k := 0
+  for (levels, w, m) in ampSizes thorough do
+    if thorough && levels ≤ 8 && m < 50 && w ≤ 3 then
+      -- small lattices: everything crossed
+      for leaves in [0, 1, 2] do
+        for parents in [true, false] do
+          doc (kidsLattice levels w m leaves false parents)
+        if m > 1 && w > 1 then doc (kidsLattice levels w m leaves true true)
+      if levels > 0 then
+        for pos in [0, 1, 2, 3] do
+          for fl in [0, 1, 2] do
+            doc (dagDoc pos fl levels w m false)
+            if m > 1 && w > 1 then doc (dagDoc pos fl levels w m true)
+    else
+      -- (a) page trees
+      doc (kidsLattice levels w m (if w == 1 then 1 else 2) false true)
+      if m > 1 && w > 1 then doc (kidsLattice levels w m 1 true true)
+      if thorough || k % 3 == 0 then doc (kidsLattice levels w m 0 (k % 2 == 1) (k % 4 < 2))
+      -- (b) container DAGs below the page / the catalog / a stream dictionary / the root of the page tree
+      if levels > 0 then
+        doc (dagDoc k k levels w m false)
+        doc (dagDoc (k + 1) (k + 1) levels w m (k % 2 == 0))
+        if thorough then doc (dagDoc (k + 2) (k + 2) levels w m false)
+    k := k + 1
+  -- the linear members
+  let reps : List (Nat × Nat × Nat × Nat) :=
+    [(1, 2, 1, 1), (1, 200, 1, 1), (1, 2, 200, 1), (1, 2, 1, 100), (20, 10, 10, 10), (50, 3, 3, 3)] ++
+    (if thorough then [(1, 1000, 1, 1), (1, 1, 1000, 1), (1, 1, 1, 1000), (150, 2, 2, 2), (40, 20, 20, 20), (0, 2, 2, 2)] else [])
+  for (pages, r, f, c) in reps do
+    doc (repDoc pages r f c false)
+    doc (repDoc pages r f c true)
+
 def gen (seed n : Nat) (tier : String) (emit : String → IO Unit) : IO Unit := do
   let doc := fun (b : Bytes) => emit s!"doc {hexOfBytes b}"
   -- fixed scenarios
@@ -1068,6 +1208,9 @@ def gen (seed n : Nat) (tier : String) (emit : String → IO Unit) : IO Unit := 
       if w == 0 then doc (baseDoc c [] none (bs "[3 0 R]") [] [] [] [])
       else if w == 1 then doc (baseDoc (bs x ++ bs " " ++ bs y) [] none (bs "[3 0 R]") [] [] [] [])
       else doc (twoStreamDoc (bs x ++ bs " " ++ c) (bs y))
+  -- work-amplifying shapes last: a traversal that works per mention makes them time out, and the runner shortens the
+  -- time limit of the cases that follow after five timeouts
+  ampSweep (tier == "thorough") doc
 
 /-- the end-to-end model (Model/Pipeline.lean) on the bytes of the case -/
 def showOutcome : Pipeline.Outcome → String
